@@ -755,6 +755,11 @@ func checkAuthentication(validCredentials []Credentials, expectedRegion string, 
 		slog.DebugContext(r.Context(), "Invalid signed headers: "+err.Error())
 		return nil, false
 	}
+	if _, err := url.ParseQuery(r.URL.RawQuery); err != nil {
+		// r.URL.Query() silently drops pairs it cannot parse; they would escape the signature.
+		slog.DebugContext(r.Context(), "Query string contains unparseable parameters: "+err.Error())
+		return nil, false
+	}
 	for headerKey := range r.Header {
 		headerKey = strings.ToLower(headerKey)
 		if mustBeSignedHeader(headerKey) && !slices.Contains(signedHeadersArray, headerKey) {
